@@ -165,12 +165,12 @@ def distance_cases(ctx):
         else:
             grid = [-1, 0, 2, 3] if m <= 3 else [-1, 0, 2]
         for path, form in combos:
-            for obs, dtype in ([('A', 'float')] if q else [('A', 'float'), ('A', 'int'), ('B', 'float')]):
+            for obs, dtype in ([('A', 'float')] if q else [('A', 'float'), ('B', 'int')]):
                 for metric in metrics:
                     for bs in ([1, 2, 3, 'all'] if q else [1, 2, 3, 4, 'all']):
                         cases.append({'kind': 'distance', 'path': path, 'obsform': form, 'layout': layout,
                                       'obs': obs, 'metric': metric, 'dtype': dtype, 'bs': bs, 'grid': grid,
-                                      'stride': 0 if q else 1})
+                                      'stride': 0 if (q or (m >= 5 and bs != 1)) else 1})
     return cases
 
 
@@ -320,8 +320,8 @@ def partition_cases(ctx):
         for layout, dtype in [('ss', 'float'), ('v', 'int'), ('ss', 'int'), ('v', 'float'), ('cs', 'float')]:
             plan += [(layout, dtype, 'g3', n, FAB) for n in (2, 3, 4)] + [(layout, dtype, 'g2', 5, FA)]
         plan += [('sv', 'float', 'g32', n, FAB) for n in (2, 3, 4)] + [('sv', 'float', 'g2', 5, FA)]
-        plan += [('ss', 'float', 'g3', 5, FA), ('ss', 'float', 'g2', 6, FA), ('ss', 'float', 'g2', 7, FA),
-                 ('v', 'int', 'g2', 6, FA), ('v', 'int', 'g2', 7, F)]
+        plan += [('ss', 'float', 'g3', 5, F), ('ss', 'float', 'g2', 6, FA), ('ss', 'float', 'g2', 7, F),
+                 ('v', 'int', 'g2', 6, FA)]
     cases = []
     for layout, dtype, grid, n, pres in plan:
         nrows = len(_rows_over(grid, R.n_cols(layout)))
@@ -340,7 +340,7 @@ FAMILIES = {   # name -> (column grid, data-set sizes)
     'tiny': ('g2', [2]),
     'small': ('g2', [2, 3]),
     'mid': ('g32', [2, 3]),
-    'large': ('g32', [2, 3, 4]),
+    'large': ('g2', [2, 3, 4]),
 }
 
 
@@ -678,8 +678,8 @@ def run(ctx):
         if q:
             plan = [(('ss', 'float'), 'mid', 2), (('v', 'int'), 'small', 3)]
         else:
-            plan = [(('ss', 'float'), 'large', 2), (('v', 'int'), 'mid', 3), (('ss', 'int'), 'small', 4),
-                    (('v', 'float'), 'small', 4), (('sv', 'float'), 'small', 3), (('cs', 'float'), 'mid', 3)]
+            plan = [(('ss', 'float'), 'large', 3), (('v', 'int'), 'mid', 3), (('ss', 'int'), 'small', 4),
+                    (('v', 'float'), 'small', 4), (('sv', 'float'), 'small', 3), (('cs', 'float'), 'small', 3)]
         nstates = {}
         for conf, fam, depth in plan:
             _, ns = explore_rounds(ctx, conf, fam, depth)
